@@ -22,7 +22,12 @@ RULE = ('cases = builder arguments (methods, origin/absolute/authority targets, 
         'framing look-alikes/periodic ones of 131071..262145 bytes) for build_http_request/response, plus arguments damaged in 9 ways '
         '(correspondence only); wire messages of the grammar generator (Content-Length in any spelling, chunk layouts with '
         'extensions/trailers/leading zeros, empty chunked body) and 10 kinds of mutations, parsed and rebuilt with '
-        'build(disable_headers, for_proxy, host)/build_response; update_body on parsed messages x Content-Encoding '
+        'build(disable_headers, for_proxy, host)/build_response; a separate stream of build() argument combinations on well-formed '
+        'requests (disable_headers: names of the message in lower case / in other casings (inert) / content-length / '
+        'transfer-encoding / host / every header / absent names; host= on requests with and without a Host header; for_proxy on '
+        'absolute-form, authority-form, CONNECT and origin-form (assert) targets; all three combined), each judged by an independent '
+        'Python statement of the argument contract, by h11, and in Coq against the specification maps of Http/BuildArgs.v (BBuildSpec); '
+        'update_body on parsed messages x Content-Encoding '
         '{none,gzip,GZIP,br,identity} x {Content-Length, chunked}; chunked streams (valid layouts + tails, mutations) for the '
         'reference decoders; (body, chunk size) pairs for to_chunks.  Every built/rebuilt/mutated message inside the comparable '
         'domain is also judged by wf_message (in Coq) against h11.  non-trivial = the implementation returned bytes (no exception) '
@@ -273,7 +278,8 @@ def py_dechunk(raw):
         pos += n + 2
 
 
-STATS = dict(wf_both_accept=0, wf_both_reject=0, wf_outside_comparable_domain=0,
+STATS = dict(buildargs_checked=0, buildargs_disable_te_on_chunked_outside_domain=0, buildargs_for_proxy_assert=0,
+             wf_both_accept=0, wf_both_reject=0, wf_outside_comparable_domain=0,
              dechunk_all_accept=0, dechunk_all_reject=0, dechunk_h11_lenient_bare_lf=0, dechunk_h11_lenient_obs_fold=0, dechunk_h11_limits=0)
 
 def h11_dechunk(stream):
@@ -436,6 +442,34 @@ def mutate(rng, raw):
     i = rng.randrange(0, len(raw)); return raw[:i] + bytes([rng.randrange(256)]) + raw[i + 1:]
 
 
+
+HOST_ARGS = [b'override.example:8080', b'backend', b'[::1]:81', b'h', b'a.b:65535']
+
+def recase(rng, name):
+    """another spelling of a header name (never the lower-case one, if the name has a letter)"""
+    alts = [x for x in (name.upper(), name.title(), name.swapcase()) if x != name.lower()]
+    return rng.choice(alts) if alts else name
+
+def gen_build_args(rng, d, i):
+    """one argument combination of HttpParser.build for the well-formed request d (i cycles through the kinds)"""
+    lows = [k.lower() for k, _ in d['headers']]
+    pick = lambda: rng.sample(lows, min(len(lows), rng.randint(1, 3))) if lows else []
+    dis, fp, host = [], False, None
+    r = i % 12
+    if r == 0: dis = pick() + [b'not-there']
+    elif r == 1: dis = [recase(rng, n) for n in pick()] + [b'Not-There']            # not lower-case: disables nothing
+    elif r == 2: dis = [b'content-length'] + (pick() if rng.random() < 0.5 else [])  # re-added for a non-empty body
+    elif r == 3: dis = [b'transfer-encoding'] + (pick() if rng.random() < 0.3 else [])
+    elif r == 4: host = rng.choice(HOST_ARGS)
+    elif r == 5: fp = True
+    elif r == 6: dis, host = pick(), rng.choice(HOST_ARGS)
+    elif r == 7: dis, fp, host = pick(), True, rng.choice(HOST_ARGS)
+    elif r == 8: dis, host = [b'host'], rng.choice(HOST_ARGS)                         # disabled AND overridden: removed
+    elif r == 9: dis = list(lows)                                                     # every header of the message
+    elif r == 10: fp, dis = True, [b'content-length', b'host']
+    else: dis = lows[:1] + [recase(rng, n) for n in lows[1:2]] + [b'']
+    return dict(disable=dis, for_proxy=fp, host=host)
+
 def gen_wire(rng, kind=None):
     """a well-formed wire message inside the rebuild domain, plus its description"""
     while True:
@@ -479,6 +513,12 @@ def generate(rng, tier):
         cases.append(dict(kind='rebuild', ptype=d['ptype'], raw=d['raw'], opts=opts, wf=(opts == dict(disable=[], for_proxy=False, host=None)),
                           fp=bool(opts['for_proxy'] and d.get('host') and d.get('port')),
                           meta=dict(framing=d['framing'], body=d['body'], nheaders=len(d['headers']))))
+    # the arguments of build(): disable_headers / for_proxy / host, alone and combined, on well-formed requests
+    for i in range(70 if quick else 2400):
+        d = gen_wire(rng, 1)
+        cases.append(dict(kind='rebuild', ptype=1, raw=d['raw'], opts=gen_build_args(rng, d, i), wf=False, dom=True, bargs=True,
+                          meta=dict(framing=d['framing'], body=d['body'], nheaders=len(d['headers']), target=d['target'],
+                                    method=d['method'])))
     # a chunked body larger than DEFAULT_BUFFER_SIZE: received as one chunk, rebuilt as two
     for nbig, pt_ in ((140000, 1), (131073, 2)) if quick else ((140000, 1), (131073, 2), (262145, 1), (131072, 2)):
         bb = big_body(rng, nbig)
@@ -509,7 +549,21 @@ def generate(rng, tier):
         body = rng.choice([b'', H.rbody(rng, rng.choice([1, 3, 17, 80]))])
         wire, _ = H.chunk_layout(rng, body)
         tail = rng.choice([b'', b'', b'xyz', b'\r\n', b'0\r\n\r\n', b'GET / HTTP/1.1\r\n\r\n'])
-        cases.append(dict(kind='dechunk', raw=wire + tail, meta=dict(body=body, tail=tail)))
+        raw_ = wire + tail
+        # the same stream also delivered in pieces (round-3 seed C15-r3-1): cuts next to every line end of the size lines,
+        # the last-chunk line, the trailer fields and the final blank line, plus random cuts - the decoder must reach the
+        # reference's answer whatever the delivery (segmentation independence proper is C03's theorem; here it is the
+        # decoder-vs-reference agreement that is observed under it)
+        pts = set()
+        ends = [m.end() for m in re.finditer(rb'\r\n', raw_)]
+        for e in rng.sample(ends, min(len(ends), 3)):
+            pts.add(e + rng.choice([-2, -1, -1, 0, 1]))
+        t0_ = len(wire) - 2
+        pts.update(rng.sample([t0_ - 3, t0_ - 2, t0_ - 1, t0_, t0_ + 1, len(wire)], 2))
+        for _ in range(rng.choice([0, 1, 3])):
+            pts.add(rng.randrange(0, len(raw_) + 1))
+        cuts = sorted(x for x in pts if 0 < x < len(raw_))
+        cases.append(dict(kind='dechunk', raw=raw_, cuts=cuts, meta=dict(body=body, tail=tail)))
         if rng.random() < 0.6:
             cases.append(dict(kind='dechunk', raw=mutate(rng, wire + tail), meta=None))
     # to_chunks
@@ -589,7 +643,12 @@ def run_impl(case):
         out['second'] = H.run_parser(case['ptype'], [raw])
         return out
     if k == 'dechunk':
-        return dict(impl=H.run_chunk([case['raw']]), h11=h11_dechunk(case['raw']), ref=py_dechunk(case['raw']))
+        o = dict(impl=H.run_chunk([case['raw']]), h11=h11_dechunk(case['raw']), ref=py_dechunk(case['raw']))
+        if case.get('cuts'):
+            raw_, cs = case['raw'], [0] + list(case['cuts']) + [len(case['raw'])]
+            o['impl_cut'] = H.run_chunk([raw_[a:b] for a, b in zip(cs, cs[1:])])
+            o['impl_bytewise'] = H.run_chunk([raw_[i:i + 1] for i in range(len(raw_))]) if len(raw_) <= 400 else None
+        return o
     if k == 'tochunks':
         try:
             w = ChunkParser.to_chunks(case['body'], case['k'])
@@ -637,6 +696,11 @@ def coq_term(case, out):
         if case.get('dom', case['wf']):
             # the parser state of a generator-well-formed wire message lies inside the (decidable) domain of C15_rebuild_stable_*_bool
             ts.append('BRebuildDom %s %s' % (pt(case['ptype']), cbytes(case['raw'])))
+        if case.get('bargs') and case.get('dom') and 'second' in out and 'err' not in out['second']:
+            # the specification header map of C15_build_disable_headers/_host_override/_for_proxy, evaluated in Coq on the
+            # parsed request, against the header map the implementation's output parsed back to
+            ts.append('BBuildSpec %s %s %s %s' % (cbytes(case['raw']), C.coq_list(cbytes(x) for x in o['disable']), cob(o['host']),
+                                                  H.coq_headers(out['second']['headers'])))
         return ts
     if k == 'update':
         gz = out.get('gz', {}).get('out', b'')
@@ -696,6 +760,88 @@ def decoded_body(hs, body):
 def same_fields(p, q, keys):
     return [k for k in keys if p.get(k) != q.get(k)]
 
+
+def oracle_build_args(case, out):
+    """the contract of build(disable_headers, for_proxy, host) stated independently of the model, on a well-formed request"""
+    o, meta = case['opts'], case['meta']
+    D, fp, host = o['disable'], o['for_proxy'], o['host']
+    if 'first' not in out or out['first']['state'] != 6:
+        return 'well-formed request does not parse to a complete message'
+    p = out['first']
+    if fp and not (p['host'] and p['port']):
+        # origin-form: `assert self.host and self.port and self._url`
+        STATS['buildargs_for_proxy_assert'] += 1
+        return None if out.get('err') == C.exn_code(AssertionError()) else 'build(for_proxy=True) without a host did not raise AssertionError'
+    if 'err' in out:
+        return 'build(%r) raised %s on a well-formed request' % (o, out['exc'])
+    q = out['second']
+    if p['chunked'] and b'transfer-encoding' in D:
+        # outside the domain (te_guard; C15_build_disable_te_refuted): the chunk-encoded bytes are announced by Content-Length
+        STATS['buildargs_disable_te_on_chunked_outside_domain'] += 1
+        return None
+    STATS['buildargs_checked'] += 1
+    if 'err' in q or q['state'] != 6 or q['buffer']:
+        return 'build(%r): the result does not parse to one complete message' % (o,)
+    if same_fields(p, q, ['method', 'version', 'chunked', 'tunnel']):
+        return 'build(%r): %s changed' % (o, same_fields(p, q, ['method', 'version', 'chunked', 'tunnel']))
+    if (p['body'] or b'') != (q['body'] or b'') or (p['body'] or b'') != meta['body']:
+        return 'build(%r): body changed: %r -> %r' % (o, (p['body'] or b'')[:40], (q['body'] or b'')[:40])
+    # headers: the client's, minus the disabled names, Host value replaced, order and spelling kept;
+    # a non-empty un-chunked body is announced (in place if a Content-Length survived, else appended)
+    exp = [[n, (host if host is not None and n.lower() == b'host' else v)] for _, n, v in (p['headers'] or []) if n.lower() not in D]
+    body = p['body'] or b''
+    if body and not p['chunked']:
+        for kv in exp:
+            if kv[0].lower() == b'content-length':
+                kv[1] = b'%d' % len(body); break
+        else:
+            exp.append([b'Content-Length', b'%d' % len(body)])
+    got = [[n, v] for _, n, v in (q['headers'] or [])]
+    if got != exp:
+        return 'build(%r): headers %r, expected %r' % (o, got, exp)
+    # what must not change: every header not named in D, other than Host under host=, keeps name, value, relative order
+    keep = [(n, v) for _, n, v in (p['headers'] or []) if n.lower() not in D and n.lower() not in (b'host', b'content-length')]
+    if [(n, v) for n, v in got if n.lower() not in (b'host', b'content-length')] != keep:
+        return 'build(%r): a header that was not disabled changed' % (o,)
+    # the request-target
+    line = out['raw'].split(b'\r\n', 1)[0].split(b' ')
+    if fp:
+        if p['tunnel']:
+            want = p['host'] + b':%d' % p['port']
+        else:
+            want = b'http://' + p['host'] + b':%d' % p['port'] + (p['path'] or b'/')
+        if line[1] != want:
+            return 'build(for_proxy=True) wrote the target %r, expected %r' % (line[1], want)
+        if (q['host'], q['port']) != (p['host'], p['port']) or (not p['tunnel'] and q['path'] != (p['path'] or b'/')):
+            return 'request rebuilt for an upstream proxy names %r, the original named %r' % (
+                (q['host'], q['port'], q['path']), (p['host'], p['port'], p['path']))
+        # an independent reading of the absolute-form target
+        if not p['tunnel']:
+            from urllib.parse import urlsplit
+            u = urlsplit(want.decode('latin-1'))
+            uh = u.hostname or ''
+            ph = p['host'].decode('latin-1').strip('[]').lower()
+            if uh != ph or u.port != p['port']:
+                return 'urllib reads %r as (%r, %r), the request named (%r, %r)' % (want, uh, u.port, ph, p['port'])
+    else:
+        if line[1] != (p['path'] or b'/') or q['path'] != (p['path'] or b'/'):
+            return 'build(%r): target %r, path was %r' % (o, line[1], p['path'])
+    # the independent parser (it insists on Host for HTTP/1.1, so not when Host itself was disabled)
+    if b'host' not in D:
+        h = h11_message(1, out['raw'])
+        if not h['ok']:
+            return 'h11 rejects build(%r): %s' % (o, h.get('why'))
+        if h['trailing']:
+            return 'h11 sees %d bytes after build(%r)' % (len(h['trailing']), o)
+        if h['method'] != p['method'] or h['target'] != line[1]:
+            return 'h11 reads another request line from build(%r)' % (o,)
+        hh = [(n.lower(), v.lower() if n.lower() == b'transfer-encoding' else v) for n, v in exp]
+        if h['headers'] != hh:
+            return 'h11 reads other headers from build(%r): %r vs %r' % (o, h['headers'], hh)
+        if h['body'] != meta['body']:
+            return 'h11 decodes another body from build(%r)' % (o,)
+    return None
+
 def oracle(case, out):
     k = case['kind']
     if k in ('req', 'resp'):
@@ -739,6 +885,8 @@ def oracle(case, out):
         if not bodyless and h['body'] != want:
             return 'h11 reads another body'
         return None
+    if k == 'rebuild' and case.get('bargs'):
+        return oracle_build_args(case, out)
     if k == 'rebuild':
         if case.get('fp') and 'first' in out and out['first']['state'] == 6:
             # build(for_proxy=True): the absolute-form (or authority-form) target must lead back to the same origin
@@ -847,6 +995,17 @@ def oracle(case, out):
             if imp['state'] != 3 or imp['body'] != ref[0] or imp['remainder'] != ref[1]:
                 return 'decoder disagrees with the reference: state %d body %r remainder %r, reference %r' % (
                     imp['state'], imp['body'][:40], imp['remainder'][:40], (ref[0][:40], ref[1][:40]))
+            for how in ('impl_cut', 'impl_bytewise'):
+                ic = out.get(how)
+                if ic is None:
+                    continue
+                if 'err' in ic:
+                    return 'decoder raised %s on a stream the reference accepts when it is delivered in pieces (%s, cuts %r)' % (
+                        ic['exc'], how, case.get('cuts'))
+                if ic['state'] != 3 or ic['body'] != ref[0] or ic['remainder'] != ref[1]:
+                    return ('decoder disagrees with the reference when the stream is delivered in pieces (%s, cuts %r): state %d body %r '
+                            'remainder %r, reference %r' % (how, case.get('cuts'), ic['state'], ic['body'][:40], ic['remainder'][:40],
+                                                            (ref[0][:40], ref[1][:40])))
         return None
     if k == 'tochunks':
         if case['k'] <= 0:
